@@ -148,7 +148,7 @@ def random_case(draw, tier="quick"):
 @st.composite
 def junk_case(draw, tier="quick"):
     tc = draw(any_case(tier, [t for t in TESTS if t != "valid_range"]))
-    tc["carrier"] = draw(st.sampled_from(["masked_junk", "masked_junk", "masked_mixed", "masked_int"]))
+    tc["carrier"] = draw(st.sampled_from(["masked_junk", "masked_junk", "masked_mixed", "masked_int", "masked_fill"]))
     tc["junk"] = draw(st.sampled_from([0.0, 1.0, -3.5, 1000.0, 12.125, -9999.0, 1e20]))
     return tc
 
